@@ -128,12 +128,12 @@ func (s *Sim) attemptAll(b *WB, o *Op, locks int) *Finding {
 	if lc := LockCount(b.W); lc >= 0 && locks >= 0 && lc != locks {
 		return finding(CatLock, "%s: %d lock bits set while %d queries are open", b.Name, lc, locks)
 	}
+	before := Shape(b.W)
 	for i := range o.Sub {
 		a := &o.Sub[i]
 		if a.K == OpRegisterNew && len(ecs.ComponentIDs(b.W)) >= ecs.MaskTotalBits {
 			continue // the registry is full: the registration would be refused for that reason
 		}
-		before := Shape(b.W)
 		p := Call(func() { b.Exec(a) })
 		if p == nil {
 			return finding(CatLock, "%s: structural call succeeded on a locked world: %s", b.Name, a.Describe())
